@@ -3,4 +3,4 @@ Require Import RV.model.Ops.
 Import ListNotations.
 
 Extraction "ops_model.ml" equals vcompare cmp_op hashkey ohkey_eqb truthy vlen contains set_of_list
-  sorted sorted_idx of_int no_nan wf sym_guard trans_guard has_oty tag_of numeric map_set hkey_eqb runes_of utf8_encode.
+  sorted sorted_idx of_int no_nan wf trans_guard has_oty tag_of numeric map_set hkey_eqb runes_of utf8_encode.
